@@ -61,6 +61,7 @@ def encErr : Err → String
   | .listConv => "err listConv"
   | .itemConv => "err itemConv"
   | .panic => "panic"
+  | .malformed => "err malformed"
   | .fuel => "twin-out-of-fuel"
 
 def joinToks (l : List String) : String := " ".intercalate l
